@@ -118,8 +118,7 @@ def main(argv=None):
                 text = S.gen_segment_line(rng, lib, ec, sname, messy=(k == 2))
                 for lvl in (S.TOLERANT, S.STRICT):
                     c = S.case_of(text, v, lvl, ec, reference=prof, ref_term=ref_term, edits=edits)
-                    if c['code'] != 30:
-                        cases.append(c)
+                    cases.append(c)
                     seg = c['obj']
                     if seg is None:
                         continue
